@@ -67,4 +67,5 @@ def long_members(family, k):
 def finite_for_family(family, basis):
     """no arbitrarily long member of the family (in any orientation) avoids the basis"""
     k = max(len(b) for b in basis)
-    return all(any(C.contains(member, b) for b in basis) for member in long_members(family, k))
+    cont = C.contains if k <= 5 else C.contains_bt
+    return all(any(cont(member, b) for b in basis) for member in long_members(family, k))
